@@ -1108,8 +1108,8 @@ func redirectMatches(f *ssa.Function, name string) bool {
 		}
 		return false
 	}
-	if f.Signature.Recv() == nil && f.Pkg != nil && f.Pkg.Pkg.Name() == left && (left == "os" || left == "syscall") {
-		return true // os.OpenFile, os.Rename, os.Remove …
+	if f.Signature.Recv() == nil && f.Pkg != nil && f.Pkg.Pkg.Name() == left && (left == "os" || left == "syscall" || left == "filepath") {
+		return true // os.OpenFile, os.Rename, os.Remove, filepath.Walk …
 	}
 	if recv := f.Signature.Recv(); recv != nil {
 		t := recv.Type()
